@@ -346,6 +346,15 @@ fn main() {
         total.1 += c.1;
         total.2 |= c.2;
     }
+    // part A's verdict must not be lost to anything that happens in part B: report it right away
+    if rep.violation_count() > 0 {
+        rep.set("states", total.0);
+        rep.set("transitions", total.1);
+        rep.set("programs", json!(per_prog));
+        rep.set("part_b", json!({"skipped": "part A reported a violation"}));
+        rep.set("exhaustive", false);
+        rep.finish();
+    }
     let b = part_b::part_b(&rep, cli.tier, Instant::now() + Duration::from_secs(cli.tier.pick(240, 1200)));
     let bs = b["schedules"].as_u64().unwrap_or(0);
     let bcap = b["cap"].as_str().map(|s| s.to_string());
